@@ -121,6 +121,8 @@ type G struct {
 	sending    bool
 	settleReq  bool
 	settleDone bool
+	napping    bool // blocked in time.Sleep (non-main goroutine)
+	napDone    bool
 	tries      []*tryMark
 }
 
